@@ -211,6 +211,8 @@ def cq_rhs(r):
 _DT_RHS = {'f': float, 'i': np.int64, 'b': bool, 'O': object}
 
 def py_rhs(r):
+    if r.get('np') == 'float32':    # values exactly representable in single precision, passed as float32
+        return np.float32(r['scalar']) if 'scalar' in r else np.array(r['flat'], dtype=np.float32).reshape(r['shape'])
     if 'scalar' in r: return r['scalar']
     return np.array(r['flat'], dtype=_DT_RHS[r['dtype']]).reshape(r['shape'])
 
